@@ -27,6 +27,8 @@ func scenarioMultiStamp() int {
 		ip     string
 		norecv bool
 		be     *wire.UDPEndpoint
+		udp    int
+		tcp    int
 	}
 	var ls []*lst
 	orders := [][]string{{"true", "omit", "false", "true"}, {"omit", "true", "false"}, {"false", "true", "omit"}, {"true", "true", "omit", "false"}}
@@ -53,8 +55,23 @@ func scenarioMultiStamp() int {
 				li.NoReceived = &f
 			}
 			svc.Listens = append(svc.Listens, li)
-			ls = append(ls, &lst{svc: s, l: l, ip: ip, norecv: setting == "true", be: be})
+			ls = append(ls, &lst{svc: s, l: l, ip: ip, norecv: setting == "true", be: be, udp: wire.UDPPort, tcp: wire.TCPPort})
 		}
+		cfg.Services = append(cfg.Services, svc)
+	}
+	// one more service listens on the wildcard address (ports of its own): packets for any local
+	// address arrive there, and the sender's address is still an IPv4 address
+	{
+		s := len(orders)
+		orders = append(orders, []string{"omit"})
+		svc := &wire.Service{Index: s, Name: fmt.Sprintf("svc%d.verif.test", s)}
+		beAddr := fmt.Sprintf("%s:%d", plan.Backend(s, 1), wire.BackendPort)
+		be, err := net.UDP(fmt.Sprintf("be%d.0/udp", s), beAddr)
+		if err != nil {
+			return fail(err)
+		}
+		svc.Listens = append(svc.Listens, wire.Listen{Address: "0.0.0.0", UDPPort: 5999, TCPPort: 5998, Backends: []string{"udp://" + beAddr}})
+		ls = append(ls, &lst{svc: s, l: 0, ip: plan.Listener(s, 0), norecv: false, be: be, udp: 5999, tcp: 5998})
 		cfg.Services = append(cfg.Services, svc)
 	}
 	var srcs []*wire.UDPEndpoint
@@ -99,7 +116,7 @@ func scenarioMultiStamp() int {
 			seq++
 			id := fmt.Sprintf("rd%d", seq)
 			m, _ := mk(id, fmt.Sprintf("svc%d.verif.test", li.svc), "UDP", "absent", "absent")
-			srcs[0].Send(fmt.Sprintf("%s:%d", li.ip, wire.UDPPort), m.Bytes(), id)
+			srcs[0].Send(fmt.Sprintf("%s:%d", li.ip, li.udp), m.Bytes(), id)
 			_, ok = net.WaitCase(id, func(o []*wire.Obs) bool { return len(o) > 0 }, 150*time.Millisecond)
 		}
 		if !ok {
@@ -132,7 +149,7 @@ func scenarioMultiStamp() int {
 			key := src + ">" + li.ip
 			c := conns[key]
 			if c == nil || c.EOF() {
-				c, err = net.Dial("tcp/"+key, src+":0", fmt.Sprintf("%s:%d", li.ip, wire.TCPPort))
+				c, err = net.Dial("tcp/"+key, src+":0", fmt.Sprintf("%s:%d", li.ip, li.tcp))
 				if err != nil {
 					run.Inconclusive(1)
 					continue
@@ -147,7 +164,7 @@ func scenarioMultiStamp() int {
 			e := srcs[g.R.Intn(len(srcs))]
 			trueIP, truePort = e.IP(), e.Port()
 			m, sentVia = mk(id, fmt.Sprintf("svc%d.verif.test", li.svc), "UDP", rportShape, recvShape)
-			e.Send(fmt.Sprintf("%s:%d", li.ip, wire.UDPPort), m.Bytes(), id)
+			e.Send(fmt.Sprintf("%s:%d", li.ip, li.udp), m.Bytes(), id)
 		}
 		obs, seen := net.WaitCase(id, func(o []*wire.Obs) bool { return len(o) > 0 }, 5*time.Second)
 		if !seen {
